@@ -351,17 +351,39 @@ def correspondence(ctx):
                 ctx.case(key=key, branch=br, nontrivial=mixed)
                 if resp['i'] != lay:
                     ctx.disagree('made/resblock', cfg, lay, resp['i'], 'masks/degrees of a directly built MaskedResidualBlock differ')
+    late_writes(ctx)
     ctx.exhaustive = not ctx.quick()
     ctx.extra['exhaustive_scope'] = ('sequential-degree grid copy x F<=6 x H<=8 x blocks<=3 x type x m<=3 x context x batch-norm x activation'
                                      if not ctx.quick() else 'quick: (copy,F,H,blocks,type) complete, other knobs sampled')
+
+
+def late_writes(ctx, report=None):
+    """the masks must hold for EVERY weight: also for weights written after the model was switched to evaluation (or training)
+    mode — in place or through load_state_dict — which is the usual order when a checkpoint is loaded for inference"""
+    for copy in ('transforms', 'nde', 'mog'):
+        for (F, H, blocks, residual) in ((2, 3, 0, False), (3, 5, 1, False), (4, 8, 2, True), (3, 4, 1, True)):
+            for late in ('inplace', 'load'):
+                for train in (False, True):
+                    cfg = dict(copy=copy, F=F, H=H, blocks=blocks, m=3 if copy == 'mog' else 2, residual=residual, random=False, C=0, bn=False, seed=F * 7 + H)
+                    extra = dict(act='tanh', train=train, dropout=0.0, wseed=F + H + blocks, late=late)
+                    r = oracle_case(cfg, **extra)
+                    if report is None:
+                        ctx.case(key=('late-write', copy, F, H, blocks, residual, late, train), branch='late-write/%s/%s' % (late, 'train' if train else 'eval'), nontrivial=True)
+                        if r is not None:
+                            ctx.disagree('made/late-write', dict(cfg, **extra), 'output block %s depends on input %s' % (r['i'], r['j']), 'autoregressive',
+                                         'weights written after the mode switch leak through the masks')
+                    elif r is not None:
+                        report(cfg, extra, r)
 
 
 # ---- the property's own oracle on the implementation ---------------------------------------------------------
 ORACLE_ACTS = {'relu': TF.relu, 'tanh': torch.tanh, 'sigmoid': torch.sigmoid}
 
 
-def oracle_case(cfg, act='relu', train=False, dropout=0.0, wseed=0, B=3, transform=False):
-    """-> None if block i of the outputs is independent of inputs j >= i, else dict(i, j, how, value)"""
+def oracle_case(cfg, act='relu', train=False, dropout=0.0, wseed=0, B=3, transform=False, late=None):
+    """-> None if block i of the outputs is independent of inputs j >= i, else dict(i, j, how, value).
+    late = 'inplace' | 'load': the weights are written AFTER the model was put in its mode (in place / through load_state_dict),
+    as when a checkpoint is loaded into a model that is already in evaluation mode"""
     try:
         net = construct(cfg, activation=ORACLE_ACTS[act], dropout=dropout)
     except Exception:
@@ -370,15 +392,23 @@ def oracle_case(cfg, act='relu', train=False, dropout=0.0, wseed=0, B=3, transfo
     if F == 0 or m == 0:
         return None
     g = torch.Generator().manual_seed(wseed)
+    if late:
+        net.train(train)
     with torch.no_grad():
-        for p in net.parameters():
-            p.copy_(torch.randn(p.shape, generator=g) * 0.7 + 0.1)
+        if late == 'load':
+            sd = {k: (torch.randn(v.shape, generator=g) * 0.7 + 0.1 if (v.is_floating_point() and k in dict(net.named_parameters())) else v.clone())
+                  for k, v in net.state_dict().items()}
+            net.load_state_dict(sd)
+        else:
+            for p in net.parameters():
+                p.copy_(torch.randn(p.shape, generator=g) * 0.7 + 0.1)
         for mod in net.modules():
             if isinstance(mod, torch.nn.modules.batchnorm._BatchNorm):
                 mod.running_mean.copy_(torch.randn(mod.running_mean.shape, generator=g) * 0.3)
                 mod.running_var.copy_(torch.rand(mod.running_var.shape, generator=g) + 0.5)
     net = net.double()
-    net.train(train)
+    if not late:
+        net.train(train)          # (late: the mode was set BEFORE the weights were written and is not touched again)
     x = torch.randn(B, F, generator=g, dtype=torch.float64)
     c = torch.randn(B, C, generator=g, dtype=torch.float64) if C else None
 
@@ -454,6 +484,7 @@ def _report(ctx, cfg, extra, r):
 def search(ctx):
     torch.set_num_threads(1)
     rng = ctx.rng
+    late_writes(ctx, report=lambda cfg, extra, r: _report(ctx, cfg, extra, r) if len(ctx.failing) < 3 else None)
     budget = 240 if ctx.quick() else 1500
     t0 = ctx.elapsed()
     seen = set()
